@@ -94,6 +94,10 @@ def _rules():
             lambda R, c, rid: shared.content_tables(R, c, rid),
             lambda R, c, rid: accessors.read_honours_offset(R, c, rid),
             lambda R, c, rid: accessors.first_last_table(R, c, rid),
+            lambda R, c, rid: accessors.kind_preserving(R, c, rid),
+        ],
+        "version-pairing": [
+            lambda R, c, rid: _as(R, c, rid, c08.rule_a, "C08.a"),
         ],
         "export": [
             lambda R, c, rid: c06.rule_b(R, c, rid),
@@ -188,9 +192,9 @@ DEPENDS = {
     "C06": ["dependency", "delete-set", "slice", "partial", "lookup", "content", "merge", "state-vector", "liveness", "block-wire"],
     "C07": ["delete-set", "slice", "partial", "export", "liveness", "block-wire", "state-vector", "creation"],
     "C08": ["slice", "delete-set", "partial", "block-wire", "state-vector", "merge", "lookup"],
-    "C09": ["slice", "partial", "content", "identity", "weak-wire", "block-wire"],
+    "C09": ["slice", "partial", "content", "identity", "weak-wire", "block-wire", "version-pairing"],
     "C11": ["liveness", "observers", "lookup"],
-    "C12": ["splice", "squash", "lookup", "delete-set"],
+    "C12": ["splice", "squash", "lookup", "delete-set", "content"],
     "C13": ["splice", "delete-set", "lookup", "content", "export", "liveness", "state-vector", "block-wire", "gc-scope"],
     "C14": ["splice", "liveness", "lookup", "redone", "block-iter", "identity"],
     "C15": ["squash", "splice", "content", "block-wire", "liveness", "gc-scope"],
